@@ -21,6 +21,7 @@ from exabgp.bgp.message.update.nlri.bgpls.tlvs.ospfroute import OspfRoute
 from exabgp.bgp.message.update.nlri.qualifier.path import PathInfo
 from exabgp.bgp.message.update.nlri.qualifier.rd import RouteDistinguisher
 from exabgp.logger import lazymsg, log
+from exabgp.protocol.family import SAFI
 from exabgp.protocol.ip import IP
 from exabgp.util.types import Buffer
 
@@ -71,7 +72,7 @@ class PREFIXv4(BGPLS):
             route_d: Route Distinguisher (for VPN SAFI), NORD if none
             addpath: AddPath path identifier
         """
-        BGPLS.__init__(self, addpath)
+        BGPLS.__init__(self, addpath, SAFI.bgp_ls_vpn if route_d else SAFI.bgp_ls)
         self._packed = packed
         self.route_d: RouteDistinguisher = route_d
 
